@@ -162,9 +162,9 @@ def run(ctx):
     oracle_stream(ctx, G, OFF)
 
 
-def oracle_stream(ctx, G, OFF):
+def oracle_stream(ctx, G, OFF, only=None):
     n = ctx.n(40, 240)
-    for i in range(n):
+    for i in (range(n) if only is None else [only]):
         r = ctx.rng("oracle", i)
         seed = r.getrandbits(30)
         k, N = r.choice([(1, 3), (2, 4), (3, 5), (2, 3), (3, 3)])
@@ -172,7 +172,11 @@ def oracle_stream(ctx, G, OFF):
         fmt = r.choice(["sdmf", "mdmf"])
         nver = r.choice([1, 2, 3])
         scenario = r.choice(["flip", "flip", "truncate", "other-file", "forged-with-our-key", "forged-with-our-key", "older-version", "mix",
-                             "header-forgery", "header-forgery", "rehash-ownleaf", "rehash-ownleaf"])
+                             "header-forgery", "header-forgery", "rehash-ownleaf", "rehash-ownleaf", "offset-forgery", "offset-forgery"])
+        if scenario == "offset-forgery":
+            # needs at least k shares to forge AND at least k left intact
+            k, N = r.choice([(1, 3), (2, 4), (2, 5), (3, 6), (1, 2)])
+            S = r.choice([N, N + 1])
         if i < 2 or r.random() < 0.12:
             # servers holding SEVERAL shares each: what the survey concludes about one share must not spill over to its neighbour
             scenario = "multi-share-header-flip"
@@ -185,7 +189,7 @@ def oracle_stream(ctx, G, OFF):
             nver = 2
         if scenario == "multi-share-header-flip":
             S = {(3, 10): 5, (3, 8): 4, (3, 6): 3, (4, 9): 3}[(k, N)]
-        case = {"seed": seed, "k": k, "N": N, "servers": S, "format": fmt, "versions": nver, "scenario": scenario}
+        case = {"seed": seed, "k": k, "N": N, "servers": S, "format": fmt, "versions": nver, "scenario": scenario, "index": i, "run_seed": ctx.seed}
         with G.Grid(num_clients=2, num_servers=S, k=k, n=N, happy=1, seed=seed, timeout=240) as g:
             contents = [b"v%d-" % v + bytes([97 + v]) * r.randrange(1, 80) for v in range(1, nver + 1)]
             node = g.run(g.create_mutable(contents[0], version=fmt, keypair=g.keypair(0)))
@@ -264,6 +268,15 @@ def oracle_stream(ctx, G, OFF):
                         ctx.oracle_fail("read-failed-with-k-intact-newest-shares", "read %s although every share but one is intact" % (one.error or one.value), case=dict(case, victim=sh.shnum))
                     g.write_share(sh, raw)
                 victims = shs[:r.randrange(1, len(shs))]        # then several at once; at least one share stays intact
+            if scenario == "offset-forgery":
+                # the offset table is NOT covered by the signature: the same entry is moved identically in k..N-k shares,
+                # which the survey then files as a version of their own with the newest sequence number
+                nvict = r.randrange(k, len(shs) - k + 1) if len(shs) >= 2 * k else 0
+                victims = shs[:nvict]
+                oix = r.randrange(6)
+                odelta = r.choice([1, 1, -1, 7, 32, -32])
+                case["forged_offset"] = ["signature", "share_hash_chain", "block_hash_tree", "share_data", "enc_privkey", "EOF"][oix]
+                case["delta"] = odelta
             for sh in victims:
                 raw = g.read_share(sh)
                 sc = scenario if scenario != "mix" else r.choice(["flip", "truncate", "other-file", "forged-with-our-key", "older-version"])
@@ -271,6 +284,14 @@ def oracle_stream(ctx, G, OFF):
                     lo, hi = (sdmf_off if raw[OFF] == 0 else mdmf_off)[fld]
                     val = (int.from_bytes(raw[OFF + lo:OFF + hi], "big") + delta) % (1 << (8 * (hi - lo)))
                     g.write_share(sh, raw[:OFF + lo] + val.to_bytes(hi - lo, "big") + raw[OFF + hi:])
+                elif sc == "offset-forgery":
+                    if raw[OFF] == 0:       # SDMF: >LLLLQQ after the 75-byte signed prefix
+                        fmt_o, base = ">LLLLQQ", OFF + 75
+                    else:                   # MDMF: >QQQQQQQQ after the 59-byte signed prefix; move one of the first six
+                        fmt_o, base = ">QQQQQQQQ", OFF + 59
+                    offs = list(struct.unpack(fmt_o, raw[base:base + struct.calcsize(fmt_o)]))
+                    offs[oix] = max(0, offs[oix] + odelta)
+                    g.write_share(sh, raw[:base] + struct.pack(fmt_o, *offs) + raw[base + struct.calcsize(fmt_o):])
                 elif sc == "rehash-ownleaf":
                     forged = rehash_ownleaf(raw[OFF:], sh.shnum, N)
                     if forged is None:
@@ -320,3 +341,15 @@ def oracle_stream(ctx, G, OFF):
                 continue
         ctx.trace(1)
         ctx.sample(case, limit=8)
+
+
+def replay(ctx, rec):
+    """Re-run one case of the oracle stream: `index` and `run_seed` in the record's case."""
+    from core import grid as G
+    from allmydata.storage.mutable import MutableShareFile
+    case = rec.get("case") or {}
+    if "index" not in case:
+        return "no single-case replay for this record"
+    ctx.seed = case.get("run_seed", ctx.seed)
+    oracle_stream(ctx, G, MutableShareFile.DATA_OFFSET, only=case["index"])
+    return {"failures": [f["what"] for f in ctx.failures]}
